@@ -36,6 +36,8 @@ pub struct Init {
     pub committed: BTreeMap<Vec<u8>, SVal>,
     pub wall: i128,
     pub mono: i128,
+    /// stream `smmock`: answer HTTP requests from this in-process mock server instead of the script
+    pub mock: Option<Rc<crate::streams::mock::ServerCfg>>,
 }
 
 fn opt_pick(rng: &mut Rng, xs: &[&str]) -> Option<String> {
@@ -62,7 +64,7 @@ fn persisted_json(rng: &mut Rng) -> Vec<u8> {
 
 /// What a restarted state machine inherits from the previous one: the committed storage and the
 /// embedder's configuration (app ids, versions), at a later time.
-pub struct Carry { pub init: Init, pub committed: BTreeMap<Vec<u8>, SVal>, pub wall: i128 }
+pub struct Carry { pub init: Init, pub committed: BTreeMap<Vec<u8>, SVal>, pub wall: i128, pub exchanges: Vec<(String, Vec<u8>, MockReply)> }
 
 /// The configuration of a restart: same apps, but the embedder presets cohort / user-counting
 /// fields in a fresh random combination (so that "stored values fill only unset fields" is exercised
@@ -122,7 +124,7 @@ pub fn gen_init(rng: &mut Rng) -> Init {
         uver: [1, 2, 3, 4], osver,
         url: if rng.chance(1, 25) { "http://exa mple.com/".into() } else { rng.pick(&["http://example.com/svc?x=1", "https://omaha.example:8443/"]).to_string() },
         cup: if rng.chance(1, 2) { Some((*rng.pick(&[1u64, 42]), rng.below(3) as usize)) } else { None },
-        presets, sys, committed, wall, mono,
+        presets, sys, committed, wall, mono, mock: None,
     }
 }
 
@@ -320,6 +322,18 @@ pub fn run_history(rng: &mut Rng, init: Init, nunits: usize, oneshot: bool) -> (
 pub fn run_history_opt(rng: &mut Rng, init: Init, nunits: usize, oneshot: bool, healthy: bool) -> (Vec<UnitCase>, Carry) {
     let hub: H = Arc::new(Mutex::new(Hub::new(init.wall, init.mono)));
     { let mut h = hub.lock().unwrap(); h.committed = init.committed.clone(); h.cup_sign = init.cup; }
+    if let Some(cfg) = &init.mock {
+        // the client's verifier should accept exactly when the server holds the client's key id with the same key pair
+        // (PrivateKeys::find: the latest key first, then the first historical entry with that id) and no ETag is forced
+        let auth = match init.cup {
+            None => true,
+            Some((kid, kidx)) => {
+                let held = if cfg.latest.0 == kid { Some(cfg.latest.1) } else { cfg.hist.iter().find(|(i, _)| *i == kid).map(|(_, k)| *k) };
+                cfg.etag_override.is_none() && held == Some(kidx)
+            }
+        };
+        hub.lock().unwrap().mock = Some(MockHook { server: Arc::new(tokio::sync::Mutex::new(cfg.build())), auth, log: vec![], exchanges: vec![] });
+    }
     let config = Config { updater: Updater { name: init.name.clone(), version: Version::from(init.uver) },
         os: OS { platform: String::new(), version: init.osver.clone(), service_pack: String::new(), arch: String::new() },
         service_url: init.url.clone(), omaha_public_keys: None };
@@ -350,6 +364,13 @@ pub fn run_history_opt(rng: &mut Rng, init: Init, nunits: usize, oneshot: bool, 
     for k in 0..nunits {
         let (mut env, path) = gen_unit(rng, &init, &init.presets, oneshot);
         if healthy { for b in env.sfail.iter_mut() { *b = false; } }
+        if let Some(cfg) = &init.mock {
+            // the installer contract: one result per app the server offers an update for
+            let offered = cfg.resp.iter().filter(|r| matches!(r.1, "update" | "urgent" | "invalidurl")).count();
+            env.results = (0..offered).map(|_| match rng.below(5) { 0 => AppRes::Failed(rng.below(3) as u32), 1 => AppRes::Deferred, _ => AppRes::Installed }).collect();
+            // the server's updates-disabled assertion follows the policy's parameters most of the time
+            if rng.chance(9, 10) { if let Some(p) = env.allow.find(':') { let b = env.allow.as_bytes()[p + 1]; let want = if cfg.resp.first().map(|r| r.3).unwrap_or(false) { b'1' } else { b'0' }; if b != want { let mut v = env.allow.clone().into_bytes(); v[p + 1] = want; env.allow = String::from_utf8(v).unwrap(); } } }
+        }
         // control request ids carry the unit index
         for s in env.wake.iter_mut() { if let Step::Ctl(id, _) = s { *id += 1000 * k; } }
         for d in env.during.iter_mut() { d.0 += 1000 * k; }
@@ -437,6 +458,11 @@ pub fn run_history_opt(rng: &mut Rng, init: Init, nunits: usize, oneshot: bool, 
         let apps_after = futures::executor::block_on(app_set.lock()).apps.clone();
         let waited = hub.lock().unwrap().trace[start..snap_after.trace_len].iter().any(|l| l.starts_with("M waitedreboot"));
         let mut env = env;
+        if let Some(m) = hub.lock().unwrap().mock.as_mut() {
+            // the replies the mock server gave are this unit's HTTP outcomes, as if they had been scripted
+            env.uc.clear(); env.ev.clear(); env.pg.clear();
+            for (kind, o) in m.log.drain(..) { match kind.as_str() { "uc" => env.uc.push_back(o), "ev" => env.ev.push_back(o), _ => env.pg.push_back(o) } }
+        }
         if !hub.lock().unwrap().trace[start..snap_after.trace_len].iter().any(|l| l.starts_with("H ")) { env.during = vec![]; }
         done.push(Done { env, path, start, end: snap_after.trace_len, snap_before: snap_before.clone(), snap_after: snap_after.clone(), end_kind, jit, rsteps: rsteps_done, apps_after, should });
         snap_before = snap_after;
@@ -483,8 +509,8 @@ pub fn run_history_opt(rng: &mut Rng, init: Init, nunits: usize, oneshot: bool, 
         cases.push(UnitCase { input, output: out.join("\t"), class: format!("{}/{}/{:?}", mode, d.path, d.end_kind) });
     }
     drop(runner);
-    let (committed, wall) = { let h = hub.lock().unwrap(); (h.committed.clone(), h.wall) };
-    (cases, Carry { init, committed, wall })
+    let (committed, wall, exchanges) = { let mut h = hub.lock().unwrap(); (h.committed.clone(), h.wall, h.mock.as_mut().map(|m| std::mem::take(&mut m.exchanges)).unwrap_or_default()) };
+    (cases, Carry { init, committed, wall, exchanges })
 }
 
 pub fn run(o: &Opts, rng: &mut Rng) -> Sink {
